@@ -3,10 +3,13 @@
 package httpserver
 
 import (
+	"encoding/json"
 	"fmt"
+	"math/rand"
 	"net"
 	"testing"
 
+	"github.com/megaease/easegress/pkg/supervisor"
 	"verif.local/kit"
 )
 
@@ -62,21 +65,393 @@ func c05Strip(s *gSpec) *gSpec {
 	return t
 }
 
+// c05Verdict is what the property demands for one request under one spec.
+type c05Verdict struct {
+	class, level      string // must-refuse / must-pass / no-verdict; level that denies
+	routeExists       bool
+	deniedEarlierRule bool
+}
+
+// c05Classify applies the property's decision table to the request under the given spec
+// (twinSpec = the same spec with every filter removed, i.e. the route that "exists").
+func c05Classify(spec, twinSpec *gSpec, q *gReq, missing map[string]bool) c05Verdict {
+	c := q.clientIP()
+	ref := refRoute(twinSpec, q, missing)
+	v := c05Verdict{class: "no-verdict", level: "-", routeExists: ref.Rule >= 0}
+	deniedServer := c05Denied(spec.IPF, c)
+	deniedRoute := v.routeExists && (c05Denied(spec.Rules[ref.Rule].IPF, c) || c05Denied(spec.Rules[ref.Rule].Paths[ref.PathIdx].IPF, c))
+	deniedAnyVisited := deniedServer || deniedRoute
+	for ri := range spec.Rules {
+		if ok, _ := refHostMatch(&spec.Rules[ri], q.Host); ok && c05Denied(spec.Rules[ri].IPF, c) {
+			deniedAnyVisited = true
+		}
+	}
+	switch {
+	case deniedServer:
+		v.class, v.level = "must-refuse", "server"
+	case deniedRoute:
+		v.class, v.level = "must-refuse", "route"
+	case !deniedAnyVisited:
+		v.class = "must-pass"
+	}
+	// denied by the rule-level filter of a host-matching rule in front of the one that owns
+	// the route (or of any host-matching rule when there is no route)
+	for ri := range spec.Rules {
+		if v.routeExists && ri >= ref.Rule {
+			break
+		}
+		if ok, _ := refHostMatch(&spec.Rules[ri], q.Host); ok && c05Denied(spec.Rules[ri].IPF, c) {
+			v.deniedEarlierRule = true
+		}
+	}
+	if v.class == "no-verdict" {
+		v.level = "other-host-matching-rule"
+		if v.deniedEarlierRule {
+			v.level = "earlier-host-matching-rule"
+		}
+	}
+	return v
+}
+
+// c05Update describes the last hot update of the server's spec in an update history.
+type c05Update struct {
+	changed string // which ipFilter the update changed: server / rule / path / nothing
+	kind    string
+	old     *gSpec
+	// what the live route cache held, just before the update, under the key of each pool
+	// request: "route", "code<status>" (absent = nothing)
+	cachedBefore map[string]string
+}
+
+// c05Env is one server under test with its twins and the history so far.
+type c05Env struct {
+	r              *kit.Run
+	missing        map[string]bool
+	spec, twinSpec *gSpec
+	mapper         *recMapper
+	m, tw, nc      *mux
+	trace          []map[string]interface{}
+	upd            *c05Update // nil until the first hot update of this history
+}
+
+func c05Key(q *gReq) string { return q.Host + "\x00" + q.Method + "\x00" + q.Path }
+
+// step serves one request on the server and its twins and judges it against the filters of
+// the spec that is in force NOW.
+func (e *c05Env) step(q gReq) {
+	r, spec, missing := e.r, e.spec, e.missing
+	c := q.clientIP()
+	v := c05Classify(spec, e.twinSpec, &q, missing)
+	class, level, routeExists, deniedEarlierRule := v.class, v.level, v.routeExists, v.deniedEarlierRule
+	var got, twin, nocache gOut
+	in := map[string]interface{}{"spec": spec, "req": q}
+	// what the route cache holds for this request's key just before it is served (only
+	// looked at for the open class)
+	entry := "-"
+	if class == "no-verdict" && spec.CacheSize > 0 && e.nc == nil {
+		// same filters, no cache: what the server does for a request without any history
+		// (built when the first request of the open class comes up)
+		ncSpec := *spec
+		ncSpec.CacheSize = 0
+		var err3 error
+		if e.nc, err3 = buildMux(&ncSpec, &recMapper{missing: missing}); err3 != nil {
+			r.Inconclusive(fmt.Sprintf("cache-less twin of an accepted spec rejected: %v", err3))
+			e.nc = nil
+		}
+	}
+	if class == "no-verdict" && e.nc != nil {
+		entry = "none"
+		if hit, kind := muxCacheProbe(e.m, &q); hit {
+			entry = kind
+		}
+	}
+	// update histories: what the property demanded for this very request before the last
+	// update, and whether its key was in the route cache when the update came
+	updTag, updCover, keyBefore := "", "", "none"
+	var before c05Verdict
+	if e.upd != nil {
+		before = c05Classify(e.upd.old, e.twinSpec, &q, missing)
+		if k, ok := e.upd.cachedBefore[c05Key(&q)]; ok {
+			keyBefore = k
+		}
+		what := e.upd.changed + "-ipfilter"
+		if e.upd.changed == "nothing" {
+			what = "nothing"
+		}
+		updTag = fmt.Sprintf(":after-hot-update-changing=%s:key-cached-before-update=%s", what, keyBefore)
+		updCover = fmt.Sprintf("/upd=%s/was=%s/keybefore=%s", e.upd.changed, before.class, keyBefore)
+	}
+	calls0 := e.mapper.Calls()
+	if r.Guard("C05:mux", in, func() { got = serve(e.m, &q) }) {
+		return
+	}
+	called := e.mapper.Calls() - calls0
+	if r.Guard("C05:twin", in, func() { twin = serve(e.tw, &q) }) {
+		return
+	}
+	if class == "no-verdict" && e.nc != nil {
+		if r.Guard("C05:nocache", in, func() { nocache = serve(e.nc, &q) }) {
+			return
+		}
+	}
+	r.Eval(1)
+	r.Cover(fmt.Sprintf("mux/%s/%s/cache=%v/entry=%s/twin=%d%s", class, level, spec.CacheSize > 0, entry, twin.Status, updCover))
+	r.Count("class_"+class, 1)
+	if e.upd != nil {
+		r.Count("requests_after_a_hot_update", 1)
+		if spec.CacheSize > 0 && keyBefore == "route" {
+			switch {
+			case class == "must-refuse" && before.class != "must-refuse":
+				// the update is what denies this client; the route it asks for was cached (by
+				// itself or by another client) before the update
+				r.Count("update_denies_client_asking_route_cached_before_update:changed="+e.upd.changed, 1)
+			case class == "must-pass" && before.class == "must-refuse":
+				r.Count("update_admits_client_asking_route_cached_before_update", 1)
+				r.Count("update_admits_client_asking_route_cached_before_update:changed="+e.upd.changed, 1)
+			}
+		}
+	}
+	e.trace = append(e.trace, map[string]interface{}{"req": q, "client": c, "got": got, "twin": twin, "class": class, "cache_entry": entry})
+	bad := ""
+	switch class {
+	case "must-refuse":
+		switch {
+		case called != 0:
+			bad = "denied-client-reached-handler"
+		case got.Status < 400 || got.Status > 499:
+			bad = fmt.Sprintf("denied-client-not-refused-4xx:got%d", got.Status)
+		case routeExists && got.Status != 403:
+			bad = fmt.Sprintf("denied-client-route-exists-not-403:got%d", got.Status)
+		}
+		r.Count("refusals_checked", 1)
+	case "must-pass":
+		if got.Status != twin.Status || got.Backend != twin.Backend || got.Path != twin.Path {
+			bad = fmt.Sprintf("allowed-client-routed-differently:got%d-twin%d", got.Status, twin.Status)
+		}
+		if twin.Status == 200 {
+			r.Count("allowed_routed_200", 1)
+		}
+	case "no-verdict":
+		// Whether the filter of a host-matching rule that does not own the route applies is
+		// left open; but the answer may not depend on the cache or on who asked before.
+		if e.nc == nil {
+			break
+		}
+		r.Count("open_case_compared_with_cacheless_server", 1)
+		if entry == "route" && deniedEarlierRule && routeExists {
+			// an earlier request put this route into the cache (it was let through), now a
+			// client that an earlier host-matching rule denies asks for the same key
+			r.Count("open_case_cached_route_asked_by_client_an_earlier_rule_denies", 1)
+		}
+		if entry != "none" && entry != "route" && deniedEarlierRule {
+			r.Count("open_case_cached_"+entry+"_asked_by_client_a_host_matching_rule_denies", 1)
+		}
+		if got.Status != nocache.Status || got.Backend != nocache.Backend || got.Path != nocache.Path {
+			bad = fmt.Sprintf("host-matching-rule-filter:outcome-depends-on-cache-history:nocache%d-cache%d:cache-entry=%s", nocache.Status, got.Status, entry)
+		}
+	}
+	if bad != "" {
+		tail := e.trace
+		if len(tail) > 10 {
+			tail = tail[len(tail)-10:]
+		}
+		detail := map[string]interface{}{
+			"yaml": spec.YAML("verif"), "request": q, "client": c, "real": got, "twin_without_filters": twin, "history_tail": tail,
+		}
+		if e.upd != nil {
+			detail["last_hot_update"] = map[string]interface{}{
+				"changed": e.upd.changed + " ipFilter", "kind": e.upd.kind, "yaml_before_update": e.upd.old.YAML("verif"),
+				"verdict_before_update": before.class, "key_in_route_cache_before_update": keyBefore,
+			}
+		}
+		r.Violation("ipfilter-mux:"+bad+":deny-level="+level+fmt.Sprintf(":cache=%v", spec.CacheSize > 0)+updTag, detail)
+	}
+}
+
+func (e *c05Env) close() {
+	e.m.close()
+	e.tw.close()
+	if e.nc != nil {
+		e.nc.close()
+	}
+}
+
+func c05CloneIPF(f *gIPF) *gIPF {
+	if f == nil {
+		return &gIPF{}
+	}
+	return &gIPF{BlockByDefault: f.BlockByDefault, Allow: append([]string{}, f.Allow...), Block: append([]string{}, f.Block...)}
+}
+
+func c05CloneSpec(s *gSpec) *gSpec {
+	b, _ := json.Marshal(s)
+	t := &gSpec{}
+	if err := json.Unmarshal(b, t); err != nil {
+		panic(err)
+	}
+	return t
+}
+
+// c05EntriesContaining: the client's own address and every network of the generator's
+// alphabet that contains it.
+func c05EntriesContaining(c string) []string {
+	out := []string{c}
+	ip := net.ParseIP(c)
+	for _, e := range genNets {
+		if e != c && c05Net(e).Contains(ip) {
+			out = append(out, e)
+		}
+	}
+	return out
+}
+
+func c05Without(entries []string, c string) []string {
+	ip := net.ParseIP(c)
+	var out []string
+	for _, e := range entries {
+		if !c05Net(e).Contains(ip) {
+			out = append(out, e)
+		}
+	}
+	return out
+}
+
+// c05GenUpdate: the operator edits ONE ipFilter of the running server (server level, one
+// rule, or one path) and leaves everything else (rules, hosts, paths, cacheSize) as it is:
+// a filter is added, removed, replaced, gets an entry that blocks one of the clients seen
+// in the traffic, is edited so that such a client is let through, has blockByDefault flipped;
+// now and then the identical spec is applied again.
+//
+// Returned besides the new spec: the request of the pool the edit is "about" (the client
+// that gets blocked / admitted; otherwise just one of the pool).
+func c05GenUpdate(rng *rand.Rand, spec, twinSpec *gSpec, pool []gReq, missing map[string]bool, routeCached func(*gReq) bool) (ns *gSpec, changed, kind string, q0 gReq) {
+	ns = c05CloneSpec(spec)
+	k := rng.Intn(10)
+	// the client the edit is about: for a blocking edit preferably one that is served now,
+	// for an admitting edit preferably one that is refused now; in both cases preferably one
+	// asking for a route that currently sits in the route cache
+	off := rng.Intn(len(pool))
+	q0 = pool[off]
+	if k == 0 {
+		return ns, "nothing", "same-spec-applied-again", q0
+	}
+	if k >= 3 && k <= 8 {
+	search:
+		for pass := 0; pass < 2; pass++ {
+			for j := range pool {
+				q := pool[(off+j)%len(pool)]
+				refused := c05Classify(spec, twinSpec, &q, missing).class == "must-refuse"
+				if refused == (k >= 6) && (pass == 1 || routeCached(&q)) {
+					q0 = q
+					break search
+				}
+			}
+		}
+	}
+	c := q0.clientIP()
+	ri := rng.Intn(len(ns.Rules))
+	pi := rng.Intn(len(ns.Rules[ri].Paths))
+	ref := refRoute(twinSpec, &q0, missing)
+	if ref.Rule >= 0 && rng.Intn(4) != 0 {
+		ri, pi = ref.Rule, ref.PathIdx // the rule / path serving that client's request
+	}
+	lvl := rng.Intn(3)
+	if k >= 6 && k <= 8 && rng.Intn(4) != 0 {
+		// admit: edit the filter that refuses the client
+		switch {
+		case c05Denied(ns.IPF, c):
+			lvl = 0
+		case ref.Rule >= 0 && c05Denied(ns.Rules[ref.Rule].IPF, c):
+			lvl, ri = 1, ref.Rule
+		case ref.Rule >= 0 && c05Denied(ns.Rules[ref.Rule].Paths[ref.PathIdx].IPF, c):
+			lvl, ri, pi = 2, ref.Rule, ref.PathIdx
+		}
+	}
+	var slot **gIPF
+	switch lvl {
+	case 0:
+		slot, changed = &ns.IPF, "server"
+	case 1:
+		slot, changed = &ns.Rules[ri].IPF, "rule"
+	default:
+		slot, changed = &ns.Rules[ri].Paths[pi].IPF, "path"
+	}
+	switch {
+	case k <= 2:
+		if *slot != nil && rng.Intn(3) == 0 {
+			*slot, kind = nil, "filter-removed"
+		} else {
+			*slot, kind = genIPF(rng), "filter-replaced"
+		}
+	case k <= 5:
+		f := c05CloneIPF(*slot)
+		f.Block = appendUniq(f.Block, pick(rng, c05EntriesContaining(c)))
+		if rng.Intn(2) == 0 {
+			f.Allow = c05Without(f.Allow, c)
+		}
+		*slot, kind = f, "entry-blocking-a-seen-client-added"
+	case k <= 8:
+		f := c05CloneIPF(*slot)
+		f.Block = c05Without(f.Block, c)
+		if f.BlockByDefault {
+			f.Allow = appendUniq(f.Allow, pick(rng, c05EntriesContaining(c)))
+		}
+		*slot, kind = f, "edited-to-admit-a-seen-client"
+	default:
+		f := c05CloneIPF(*slot)
+		f.BlockByDefault = !f.BlockByDefault
+		*slot, kind = f, "blockByDefault-flipped"
+	}
+	return ns, changed, kind, q0
+}
+
+// hotUpdate applies the new spec to the RUNNING server (mux.reload, as HTTPServer does on an
+// updated spec); the twins follow: the filter-less twin is unaffected (rules are the same),
+// the cache-less twin is rebuilt from the new spec when next needed.
+func (e *c05Env) hotUpdate(ns *gSpec, changed, kind string, pool []gReq) bool {
+	ss, err := supervisor.NewSpec(ns.YAML("verif"))
+	if err != nil {
+		e.r.Count("update_spec_rejected", 1)
+		e.r.Note("updated spec rejected by validation: %v", err)
+		return false
+	}
+	u := &c05Update{changed: changed, kind: kind, old: e.spec, cachedBefore: map[string]string{}}
+	for k := range pool {
+		if hit, ek := muxCacheProbe(e.m, &pool[k]); hit {
+			u.cachedBefore[c05Key(&pool[k])] = ek
+		}
+	}
+	e.m.reload(ss, e.mapper)
+	e.spec, e.upd = ns, u
+	if e.nc != nil {
+		e.nc.close()
+		e.nc = nil
+	}
+	e.r.Count("hot_updates", 1)
+	e.r.Count("hot_updates_changing_"+changed, 1)
+	return true
+}
+
 // TestVerif_C05_Mux: mux with IP filters at the three levels against a twin mux without
-// any filter, over request histories, with and without the route cache.
+// any filter, over request histories, with and without the route cache, and over histories
+// in which the running server's filters are updated between requests.
 func TestVerif_C05_Mux(t *testing.T) {
 	r := kit.Start(t, "C05")
 	defer r.Finish()
-	r.Rule("part b: seeded HTTPServer specs with IP filters at server/rule/path level (and header conditions in half of them), cacheSize in {0,1,2,8,64}; every third spec is a 'stacked' server: 2-3 rules whose host conditions (catch-all, exact, regexps) all accept the same host, most of them with their own rule-level filter, cacheSize>0, and a pool of 4 request shapes for that host each asked by 3 different clients, so that a route is first cached by a client the filters let through and then asked for by a client that an earlier host-matching rule (which does not own the path) denies; histories of 40 requests drawn from the pool, client addresses given via RemoteAddr / a public X-Forwarded-For / X-Real-IP; each request also goes to a twin mux whose spec has every filter removed and, when the cache is on, to a twin with the same filters but no cache; must-refuse (denied by the server filter, or by the rule/path filter of the route the twin picks): 4xx, handler never invoked, 403 when the twin finds a route; must-pass (no filter of the server, of any host-matching rule, or of the twin's path denies): identical to the twin; otherwise (denied only by the filter of another host-matching rule: whether that filter applies is left open) the outcome must not depend on the cache or on earlier requests, i.e. equal the cache-less twin's; distinct = (verdict class, level that denies, cache on?, cache entry found, twin status)")
+	r.Rule("part b: seeded HTTPServer specs with IP filters at server/rule/path level (and header conditions in half of them), cacheSize in {0,1,2,8,64}; every third spec is a 'stacked' server: 2-3 rules whose host conditions (catch-all, exact, regexps) all accept the same host, most of them with their own rule-level filter, cacheSize>0, and a pool of 4 request shapes for that host each asked by 3 different clients, so that a route is first cached by a client the filters let through and then asked for by a client that an earlier host-matching rule (which does not own the path) denies; histories of 40 requests drawn from the pool, client addresses given via RemoteAddr / a public X-Forwarded-For / X-Real-IP; each request also goes to a twin mux whose spec has every filter removed and, when the cache is on, to a twin with the same filters but no cache; must-refuse (denied by the server filter, or by the rule/path filter of the route the twin picks): 4xx, handler never invoked, 403 when the twin finds a route; must-pass (no filter of the server, of any host-matching rule, or of the twin's path denies): identical to the twin; otherwise (denied only by the filter of another host-matching rule: whether that filter applies is left open) the outcome must not depend on the cache or on earlier requests, i.e. equal the cache-less twin's; UPDATE HISTORIES (a further 14% of servers of the same two kinds, cache on in 5 of 6): 3 phases of 12, 18 and 18 requests from the same pool, and between phases the RUNNING server gets a hot update (mux.reload) that leaves rules, hosts, paths and cacheSize alone and edits one ipFilter (server level / one rule / one path, preferably the ones serving a client of the pool): filter added, removed, replaced, an entry blocking a seen client added, edited to admit a seen client, blockByDefault flipped, or the same spec applied again; the client such an edit is about (preferably one whose route sits in the route cache) is the first to ask again after the update; every request after an update is judged by the same three rules against the filters of the spec NOW in force; a run must contain clients that the last update newly denies (server-, rule- and path-level updates each) and clients it newly admits asking for a route that sat in the route cache when the update came; distinct = (verdict class, level that denies, cache on?, cache entry found, twin status; after an update also: which filter the update changed, verdict before the update, what the cache held for the key before the update)")
 	r.Assume("client address = RemoteAddr host, or a single public X-Forwarded-For value, or X-Real-IP, as resolved by the realip library the server uses")
+	r.Assume("a spec update has been applied when mux.reload returned (requests and updates are sequential in these histories; concurrent updates are C11's subject): from then on 'the filter applying to it' means the filter of the updated spec")
 	nSpecs := r.N(800, 24000)
+	nUpd := r.N(112, 3360)
 	sizes := []int{0, 0, 1, 2, 8, 64}
+	updSizes := []int{0, 2, 8, 64, 64, 64}
 	missing := map[string]bool{"gone": true}
-	for i := 0; i < nSpecs; i++ {
+	for i := 0; i < nSpecs+nUpd; i++ {
 		if !r.Mine(i) {
 			continue
 		}
 		rng := r.CaseRand(i)
+		withUpdates := i >= nSpecs
 		stacked := i%3 == 2
 		var spec *gSpec
 		if stacked {
@@ -90,19 +465,24 @@ func TestVerif_C05_Mux(t *testing.T) {
 			}
 			spec.CacheSize = sizes[rng.Intn(len(sizes))]
 		}
+		if withUpdates {
+			spec.CacheSize = updSizes[rng.Intn(len(updSizes))]
+		}
 		twinSpec := c05Strip(spec)
-		r.Case(i, spec)
+		if withUpdates {
+			r.Case(i, map[string]interface{}{"kind": "update-history", "initial_spec": spec})
+		} else {
+			r.Case(i, spec)
+		}
 		mapper := &recMapper{missing: missing}
 		m, err := buildMux(spec, mapper)
 		tw, err2 := buildMux(twinSpec, &recMapper{missing: missing})
-		// same filters, no cache: what the server does for a request without any history
-		// (built when the first request of the open class comes up)
-		var nc *mux
 		if err != nil || err2 != nil {
 			r.Count("spec_rejected", 1)
 			r.Note("spec rejected: %v %v", err, err2)
 			continue
 		}
+		env := &c05Env{r: r, missing: missing, spec: spec, twinSpec: twinSpec, mapper: mapper, m: m, tw: tw}
 		pool := make([]gReq, 0, 12)
 		nShapes, nOthers := 8, 3
 		if stacked {
@@ -134,145 +514,47 @@ func TestVerif_C05_Mux(t *testing.T) {
 			v.RemoteAddr = net.JoinHostPort(pick(rng, genClients), "77")
 			pool = append(pool, v)
 		}
-		var trace []map[string]interface{}
-		for k := 0; k < 40; k++ {
-			q := pool[rng.Intn(len(pool))]
-			c := q.clientIP()
-			ref := refRoute(twinSpec, &q, missing)
-			routeExists := ref.Rule >= 0
-			deniedServer := c05Denied(spec.IPF, c)
-			deniedRoute := routeExists && (c05Denied(spec.Rules[ref.Rule].IPF, c) || c05Denied(spec.Rules[ref.Rule].Paths[ref.PathIdx].IPF, c))
-			deniedAnyVisited := deniedServer || deniedRoute
-			for ri := range spec.Rules {
-				if ok, _ := refHostMatch(&spec.Rules[ri], q.Host); ok && c05Denied(spec.Rules[ri].IPF, c) {
-					deniedAnyVisited = true
-				}
+		if !withUpdates {
+			for k := 0; k < 40; k++ {
+				env.step(pool[rng.Intn(len(pool))])
 			}
-			class, level := "no-verdict", "-"
-			switch {
-			case deniedServer:
-				class, level = "must-refuse", "server"
-			case deniedRoute:
-				class, level = "must-refuse", "route"
-			case !deniedAnyVisited:
-				class = "must-pass"
-			}
-			// denied by the rule-level filter of a host-matching rule in front of the one that owns
-			// the route (or of any host-matching rule when there is no route)
-			deniedEarlierRule := false
-			for ri := range spec.Rules {
-				if routeExists && ri >= ref.Rule {
-					break
+		} else {
+			for phase := 0; phase < 3; phase++ {
+				n := 12
+				if phase > 0 {
+					n = 18
+					ns, changed, kind, about := c05GenUpdate(rng, env.spec, twinSpec, pool, missing, func(q *gReq) bool {
+						hit, ek := muxCacheProbe(env.m, q)
+						return hit && ek == "route"
+					})
+					env.hotUpdate(ns, changed, kind, pool)
+					// the client the edit was about comes back first
+					env.step(about)
+					n--
 				}
-				if ok, _ := refHostMatch(&spec.Rules[ri], q.Host); ok && c05Denied(spec.Rules[ri].IPF, c) {
-					deniedEarlierRule = true
+				for k := 0; k < n; k++ {
+					env.step(pool[rng.Intn(len(pool))])
 				}
-			}
-			if class == "no-verdict" {
-				level = "other-host-matching-rule"
-				if deniedEarlierRule {
-					level = "earlier-host-matching-rule"
-				}
-			}
-			var got, twin, nocache gOut
-			in := map[string]interface{}{"spec": spec, "req": q}
-			// what the route cache holds for this request's key just before it is served (only
-			// looked at for the open class)
-			entry := "-"
-			if class == "no-verdict" && spec.CacheSize > 0 && nc == nil {
-				ncSpec := *spec
-				ncSpec.CacheSize = 0
-				var err3 error
-				if nc, err3 = buildMux(&ncSpec, &recMapper{missing: missing}); err3 != nil {
-					r.Inconclusive(fmt.Sprintf("cache-less twin of an accepted spec rejected: %v", err3))
-					nc = nil
-				}
-			}
-			if class == "no-verdict" && nc != nil {
-				entry = "none"
-				if hit, kind := muxCacheProbe(m, &q); hit {
-					entry = kind
-				}
-			}
-			before := mapper.Calls()
-			if r.Guard("C05:mux", in, func() { got = serve(m, &q) }) {
-				continue
-			}
-			called := mapper.Calls() - before
-			if r.Guard("C05:twin", in, func() { twin = serve(tw, &q) }) {
-				continue
-			}
-			if class == "no-verdict" && nc != nil {
-				if r.Guard("C05:nocache", in, func() { nocache = serve(nc, &q) }) {
-					continue
-				}
-			}
-			r.Eval(1)
-			r.Cover(fmt.Sprintf("mux/%s/%s/cache=%v/entry=%s/twin=%d", class, level, spec.CacheSize > 0, entry, twin.Status))
-			r.Count("class_"+class, 1)
-			trace = append(trace, map[string]interface{}{"req": q, "client": c, "got": got, "twin": twin, "class": class, "cache_entry": entry})
-			bad := ""
-			switch class {
-			case "must-refuse":
-				switch {
-				case called != 0:
-					bad = "denied-client-reached-handler"
-				case got.Status < 400 || got.Status > 499:
-					bad = fmt.Sprintf("denied-client-not-refused-4xx:got%d", got.Status)
-				case routeExists && got.Status != 403:
-					bad = fmt.Sprintf("denied-client-route-exists-not-403:got%d", got.Status)
-				}
-				r.Count("refusals_checked", 1)
-			case "must-pass":
-				if got.Status != twin.Status || got.Backend != twin.Backend || got.Path != twin.Path {
-					bad = fmt.Sprintf("allowed-client-routed-differently:got%d-twin%d", got.Status, twin.Status)
-				}
-				if twin.Status == 200 {
-					r.Count("allowed_routed_200", 1)
-				}
-			case "no-verdict":
-				// Whether the filter of a host-matching rule that does not own the route applies is
-				// left open; but the answer may not depend on the cache or on who asked before.
-				if nc == nil {
-					break
-				}
-				r.Count("open_case_compared_with_cacheless_server", 1)
-				if entry == "route" && deniedEarlierRule && routeExists {
-					// an earlier request put this route into the cache (it was let through), now a
-					// client that an earlier host-matching rule denies asks for the same key
-					r.Count("open_case_cached_route_asked_by_client_an_earlier_rule_denies", 1)
-				}
-				if entry != "none" && entry != "route" && deniedEarlierRule {
-					r.Count("open_case_cached_"+entry+"_asked_by_client_a_host_matching_rule_denies", 1)
-				}
-				if got.Status != nocache.Status || got.Backend != nocache.Backend || got.Path != nocache.Path {
-					bad = fmt.Sprintf("host-matching-rule-filter:outcome-depends-on-cache-history:nocache%d-cache%d:cache-entry=%s", nocache.Status, got.Status, entry)
-				}
-			}
-			if bad != "" {
-				tail := trace
-				if len(tail) > 10 {
-					tail = tail[len(tail)-10:]
-				}
-				r.Violation("ipfilter-mux:"+bad+":deny-level="+level+fmt.Sprintf(":cache=%v", spec.CacheSize > 0), map[string]interface{}{
-					"yaml": spec.YAML("verif"), "request": q, "client": c, "real": got, "twin_without_filters": twin, "history_tail": tail,
-				})
 			}
 		}
 		if i < 2 {
-			r.Sample(map[string]interface{}{"spec": spec, "trace_head": trace[:minIntC05(3, len(trace))]})
+			r.Sample(map[string]interface{}{"spec": spec, "trace_head": env.trace[:minIntC05(3, len(env.trace))]})
 		}
-		m.close()
-		tw.close()
-		if nc != nil {
-			nc.close()
+		if i == nSpecs || i == nSpecs+1 {
+			r.Sample(map[string]interface{}{"kind": "update-history", "initial_spec": spec, "last_update": map[string]string{"changed": env.upd.changed, "kind": env.upd.kind}, "final_yaml": env.spec.YAML("verif")})
 		}
+		env.close()
 	}
 	r.Require("class_must-refuse", 1)
 	r.Require("class_must-pass", 1)
 	r.Require("allowed_routed_200", 1)
 	r.Require("open_case_compared_with_cacheless_server", 1)
 	r.Require("open_case_cached_route_asked_by_client_an_earlier_rule_denies", 1)
+	r.Require("requests_after_a_hot_update", 1)
+	for _, l := range []string{"server", "rule", "path"} {
+		r.Require("update_denies_client_asking_route_cached_before_update:changed="+l, 1)
+	}
+	r.Require("update_admits_client_asking_route_cached_before_update", 1)
 }
 
 func minIntC05(a, b int) int {
